@@ -621,12 +621,23 @@ function describeObjectMember(
   };
 }
 
+// property names that are not identifiers must be quoted to be TypeScript
+function describePropertyKey(key: string): string {
+  return /^[A-Za-z_$][A-Za-z0-9_$]*$/.test(key) ? key : JSON.stringify(key);
+}
+
+// an index signature can stand next to named properties (a mapped type `[K in ...]` cannot)
 function describeIndexObjectMember(
   ctx: DescribeContext,
   key: Runtype,
   value: Runtype,
 ): { docText?: string; member: string } {
-  return describeObjectMember(ctx, `[K in ${describeTypeExpr(ctx, key)}]`, value);
+  const description = value.describe(ctx);
+  const optional = value instanceof OptionalFieldRuntype ? " | undefined" : "";
+  return {
+    docText: description.docText,
+    member: `[key: ${describeTypeExpr(ctx, key)}]: ${description.typeExpr}${optional}`,
+  };
 }
 
 function renderObjectMember(member: { docText?: string; member: string }): string {
@@ -947,7 +958,7 @@ export class BigIntRuntype extends BaseRuntype {
   }
 
   protected describeTypeExpr(_ctx: DescribeContext): string {
-    return "BigInt";
+    return "bigint";
   }
   schema(ctx: SchemaContext): JSONSchema7 {
     throw new Error(buildSchemaErrorMessage(ctx, "Cannot generate JSON Schema for BigInt"));
@@ -2071,11 +2082,19 @@ export class ObjectRuntype extends BaseRuntype {
     const sortedKeys = Object.keys(this.properties).sort();
     const props = sortedKeys.map((k) => {
       const it = this.properties[k];
-      return describeObjectMember(ctx, k, it);
+      return describeObjectMember(ctx, describePropertyKey(k), it);
     });
 
+    // an optional index member on its own keeps the mapped spelling `[K in ...]?:`, which is the
+    // only one that round-trips the optional mark; next to named properties it has to be an index signature
+    const loneOptionalIndex =
+      sortedKeys.length === 0 &&
+      this.indexedPropertiesParser.length === 1 &&
+      this.indexedPropertiesParser[0].value instanceof OptionalFieldRuntype;
     const indexProps = this.indexedPropertiesParser.map(({ key, value }) =>
-      describeIndexObjectMember(ctx, key, value),
+      loneOptionalIndex
+        ? describeObjectMember(ctx, `[K in ${describeTypeExpr(ctx, key)}]`, value)
+        : describeIndexObjectMember(ctx, key, value),
     );
 
     const members = [...props, ...indexProps];
